@@ -23,14 +23,14 @@ FUNCTIONS = ["FmtStr.__add__", "__radd__", "__mul__", "__getitem__", "splice", "
              "width_aware_splitlines", "__getattr__ (upper)", "fmtstr", "copy", "FmtStr.__str__/__len__/s/width/__repr__",
              "Chunk.color_str", "FrozenAttributes", "FmtStr.__setitem__"]
 BOUNDS = ("pool: 4 initial FmtStrs (1-2 runs, one with a formatted empty run next to unformatted text; narrow, double-width, combining, newline and separator characters); programs of "
-          "L = 1 (all 23 operations) and L = 2 (quick: 80 op-code pairs chosen by VERIF_SEED, thorough: all 529) and L = 3 "
+          "L = 1 (all 24 operations) and L = 2 (quick: 80 op-code pairs chosen by VERIF_SEED, thorough: all 576) and L = 3 "
           "(thorough: 300 seeded triples); per step: operands x, y in the current pool, a <= b in 0..3, observation choice in "
           "{none, str, len+s, width, all+delegated} before every step - all enumerated by the solver")
 STUBS = ["texts are concrete representatives (the operations inspect characters through C code: regex, cwcwidth)",
          "real cwcwidth (the C extension is called on concrete characters)"]
 
 OPS = ["add", "add_str", "radd_str", "mul", "slice", "splice", "splice_str", "append", "join", "split", "splitlines", "ljust",
-       "rjust_fill", "with_atts", "without_atts", "new_str", "wslice", "wsplit", "upper", "rewrap", "copy", "ljust_short", "rjust_short"]
+       "rjust_fill", "with_atts", "without_atts", "new_str", "wslice", "wsplit", "upper", "rewrap", "copy", "ljust_short", "rjust_short", "iadd"]
 OBS = 5
 CASES = []
 
@@ -159,6 +159,10 @@ def _apply(op, pool, x, y, a, b):
         return [fmtstr(X, "underline")]
     if op == "copy":
         return [X.copy()]
+    if op == "iadd":
+        Z = X
+        Z += Y                  # augmented assignment must build a new value, not edit the one X still names
+        return [Z]
     if op == "ljust_short":
         return [X.ljust(max(0, len(X) - 1 - a % 2))]        # narrower than the text: nothing to pad
     if op == "rjust_short":
